@@ -412,7 +412,7 @@ func (s *Service) unblindProposal(ctx context.Context,
 				}
 				break
 			}
-			if signedProposalResponse == nil {
+			if signedProposalResponse == nil || signedProposalResponse.Data == nil {
 				log.Debug().Msg("No signed block received")
 				return
 			}
